@@ -1,6 +1,7 @@
 import HdModel.Props.C14
 import HdModel.Lemmas.PoolWaiters
 import HdModel.Lemmas.PoolMarker
+import HdModel.Lemmas.PoolChan
 /-! # C03 — every request's connection acquisition terminates; nobody is stranded
 
 Step-level theorems about the pool model, valid in **every** state. Together they cover the three
@@ -175,6 +176,40 @@ theorem C03_waiter_waits_for_running_attempt (cfg : Config) (ops : List Op) (r :
   have hw := (C03_waiter_only_while_attempt_in_flight cfg ops r c hco ha hi hch).1
   obtain ⟨r', c', h1, h2, h3, _, h5⟩ := C03_marker_has_running_owner cfg ops c.token (by simpa using hw)
   exact ⟨r', c', h1, h2, h3, h5⟩
+
+/-- **C03 (a live pure waiter's channel is always usable), over all reachable states**: never
+    receiver-gone, never absent (`Lemmas/PoolChan.lean`). -/
+theorem C03_waiter_channel_usable (cfg : Config) (ops : List Op) (r : ReqId) (c : Checkout)
+    (hco : (run (init cfg) ops).1.co r = some c) (ha : c.alive = true) (hi : c.inner = .waiting) (hw : c.waiter = .connecting) :
+    (run (init cfg) ops).1.chan r = .empty ∨ (∃ p, (run (init cfg) ops).1.chan r = .full p) ∨
+      (run (init cfg) ops).1.chan r = .txGone := by
+  have h := run_waitChan ops (init cfg) (waitChan_init cfg) r c hco ⟨ha, hi, hw⟩
+  cases hch : (run (init cfg) ops).1.chan r with
+  | none => exact absurd (Or.inr hch) h
+  | empty => exact Or.inl rfl
+  | full p => exact Or.inr (Or.inl ⟨p, rfl⟩)
+  | rxGone => exact absurd (Or.inl hch) h
+  | txGone => exact Or.inr (Or.inr rfl)
+
+/-- **C03 (whoever is told to wait, waits for something real) – the three invariants composed.** In
+    every reachable state: if a live checkout that only waits for another request's attempt polls
+    `Pending`, then its channel is empty, it is queued for its origin, the origin's marker is in place,
+    and the checkout that placed that marker is alive or carried on by a background task. In every
+    other case its poll resolves (`C03_waiter_poll`). -/
+theorem C03_pending_waiter_waits_for_running_attempt (cfg : Config) (ops : List Op) (r : ReqId) (c : Checkout)
+    (hco : (run (init cfg) ops).1.co r = some c) (ha : c.alive = true) (hi : c.inner = .waiting) (hw : c.waiter = .connecting)
+    (hp : (pollCheckout (run (init cfg) ops).1 r c).2.2 = .pending) :
+    (run (init cfg) ops).1.chan r = .empty ∧ r ∈ (run (init cfg) ops).1.waiting c.token ∧
+    ∃ r' c', (run (init cfg) ops).1.co r' = some c' ∧ c'.marker = true ∧ c'.token = c.token ∧
+      Running (run (init cfg) ops).1 r' c' := by
+  obtain ⟨pf, pt, _⟩ := C03_waiter_poll (run (init cfg) ops).1 r c hi hw
+  have hch : (run (init cfg) ops).1.chan r = .empty := by
+    rcases C03_waiter_channel_usable cfg ops r c hco ha hi hw with h | ⟨p, h⟩ | h
+    · exact h
+    · rw [pf p h] at hp; cases hp
+    · rw [pt h] at hp; cases hp
+  exact ⟨hch, (C03_waiter_only_while_attempt_in_flight cfg ops r c hco ha hi hch).2,
+         C03_waiter_waits_for_running_attempt cfg ops r c hco ha hi hch⟩
 
 /-- Non-vacuity of the two theorems above, and the repaired defect as a model run: request 1 (HTTP/2)
     places the marker; request 0's connection turns out to be HTTP/2 by ALPN and removes it; request 1
